@@ -1,9 +1,7 @@
 //go:build verif
 
-// Contracts for govc (/verif): C05, assumed contract of base58.Encode as used by common.Address.String. Comment-only file.
+// Contracts for govc (/verif): C05, contract of base58.Encode as used by common.Address.String. Comment-only file.
 
 package base58
 
-//@ -- Encode: radix conversion with big.Int on a local copy; total, no effect on existing memory (its functional correctness is C32's subject).
-//@ assume func Encode(b)
-//@   modifies nothing
+//@ -- Encode: contract in zz_contracts_c32_verif.go (modifies nothing, plus its value EncodeOf(seq(b)))
